@@ -134,9 +134,12 @@ def rank_deficient_cases(rng, n):
     N - p >= p throughout (the domain of the property)."""
     out = [(np.array([1., 1., 1., 1., 1., 1., 1., 5.]), 2),
            (np.array([1., -1.] * 6 + [2.5]), 3),
-           (np.array([2., 2., 2., 2., 2., 2., -1., 2., 2.]), 3)]
+           (np.array([2., 2., 2., 2., 2., 2., -1., 2., 2.]), 3),
+           # long records (more than 100 prediction equations)
+           (np.array([1.5] * 127 + [4.0]), 3), (np.array([1., -1.] * 60 + [1., 3.]), 4),
+           (np.array([1., 0., -1., 0.] * 30 + [1., 0., -1., 2.]) + 0j, 6)]
     while len(out) < n:
-        N = int(rng.choice([8, 12, 17, 32, 64]))
+        N = int(rng.choice([8, 12, 17, 32, 64, 128]))
         t = np.arange(N)
         # shapes 2, 3 (one exponential / one sinusoid): regressors dependent only up to rounding - the inputs behind
         # fix c589fcc (lstsq singular-value cutoff)
@@ -165,7 +168,8 @@ def obs_events(chk):
     reps = 30 if chk.tier == 'quick' else 300
     sizes = [6, 9, 16, 33, 64, 127, 128]
     grid = [(N, c) for N in sizes for c in (False, True)]
-    rd = rank_deficient_cases(rng, 12 if chk.tier == 'quick' else 60)
+    # (own stream: the events below keep the inputs they had before these cases existed)
+    rd = rank_deficient_cases(np.random.RandomState(1450 + chk.seed), 16 if chk.tier == 'quick' else 80)
     for rep in range(reps + len(grid) + len(rd)):
         if rep >= reps + len(grid):
             N, cplx = len(rd[rep - reps - len(grid)][0]), bool(np.iscomplexobj(rd[rep - reps - len(grid)][0]))
